@@ -172,8 +172,16 @@ def discharge_contracts(rep: Report, modname, n_contracts, timeout_ms, jobs=None
     again = [q for q in all_obs if getattr(q, "kind", "ob") == "ob" and q.verdict == "unknown"]
     if 0 < len(again) <= 48:
         first = {id(q): q.secs for q in again}
+        led = load_ledger()
+        for q in again:
+            # only the stages that discharge this obligation on the unchanged tree (ledger): the question of the second pass is whether
+            # they still do when given time, not whether some other stage might
+            keep = set(led.get(q.ob_name, {}).get("stages", ()))
+            if keep and any(nm in keep for nm, _ in q.stages):
+                q.stages = [(nm, tx) for nm, tx in q.stages if nm in keep]
         D.run_queries(again, jobs=jobs, timeout_ms=3 * timeout_ms, thorough=(rep.tier == "thorough"), seed=rep.seed, budget_s=(400 if rep.tier == "quick" else 1800))
         for q in again:
+            q.second_pass_s = q.secs
             q.secs += first[id(q)]
         rep.notes.append(f"{len(again)} atomic queries timed out in the first pass and were re-run alone with a {3 * timeout_ms // 1000} s budget: "
                          f"{sum(1 for q in again if q.verdict == 'unsat')} discharged, {sum(1 for q in again if q.verdict == 'sat')} refuted, {sum(1 for q in again if q.verdict == 'unknown')} still open")
@@ -375,8 +383,19 @@ def triage(rep: Report, failed, replay_fn, ledger, known):
         base = name
         cut_off = all(q.detail == "solve-phase deadline reached" for q in qs)
         timed_out = not cut_off and all(q.verdict == "unknown" for q in qs)
-        if timed_out:
-            # every failing atom is a time-out (also after the second pass): the solver gave no reason -- undecided, whatever the ledger says
+        led_e = ledger.get(base, {})
+        spent = sum(getattr(q, "second_pass_s", 0.0) for q in qs)
+        if timed_out and led_e.get("verdict") == "discharged" and led_e.get("stages") and spent >= max(30.0, 6 * led_e.get("ms", 0) / 1000.0):
+            # the stages that discharge this obligation on the unchanged tree (ledger) were given three times the budget, alone, and at least
+            # six times the time the whole obligation takes there, and still do not discharge it: reported as no longer discharged
+            rec = {"property": rep.pid, "obligation": name, "source_line": cand.line, "solver_output": solver_out,
+                   "note": f"discharged on the unchanged tree in {led_e.get('ms', 0)} ms by stages {led_e.get('stages')}; now those stages time out "
+                           f"({spent:.0f} s in the second pass, alone, three times the budget); no counter-model and no failing input found"}
+            p = write_replay(rep.pid, name, rec)
+            rep.violations.append((p, f"obligation {name} (line {cand.line}) no longer discharged: time-out after {spent:.0f} s (unchanged tree: {led_e.get('ms', 0)} ms)", True))
+        elif timed_out:
+            # every failing atom is a time-out (also after the second pass) and the time spent is not far beyond what the obligation
+            # needs on the unchanged tree: the solver gave no reason -- undecided, whatever the ledger says
             rep.undischarged.append(f"{name} line {cand.line}: solver time-out at stage {cand.stage} (no verdict)")
         elif cut_off:
             # never examined to the end (wall-clock budget of the solve phase): undecided, whatever the ledger says
